@@ -206,6 +206,7 @@ impl Property for Soundness {
                 crate::genr::prog::Profile::CONTROL,
                 crate::genr::prog::Profile::SCOPING,
             ]);
+            let profile = if tape.bool() { profile.with_free_dispatch() } else { profile };
             let program = crate::genr::case::generate(tape, profile);
             let hide = match tape.below(3) {
                 0 => crate::genr::ast::Hide::None,
